@@ -20,7 +20,9 @@ func init() {
 
 func checkC09(c *Ctx, r *Report) {
 	checkMirroredCorrection(c, r)
-	checkUPCDigitLoops(c, r) // an upside-down EAN-8 row is not taken for digits: only the L patterns are matched there (also C10)
+	checkLuma(c, r)                             // grey levels survive the colour conversion (also C17)
+	checkImageRead(c, r)                        // the pixels the readers work on are the image's: every image type is read at its own coordinates (also C17)
+	checkUPCDigitLoops(c, r)                    // an upside-down EAN-8 row is not taken for digits: only the L patterns are matched there (also C10)
 	checkSharedStores(c, r, "oned,gozxing", 10) // results and their metadata are not shared between reads (also C18)
 
 	checkResultSites(c, r)
